@@ -282,6 +282,47 @@ def _update_is_row(e, f):
     return z3.And(*conds)
 
 
+def unit_merge_no_candidate(U):
+    """'merge' when no stored candidate agrees on the other columns: the newcomer is filed under a
+    fresh '<key>_n' and (requested key, fresh key) is recorded in duplicates"""
+    it = _interp()
+
+    def run(ctx):
+        fid, _ = IM.sval("f.ID")
+        f, fv = IM.sym_feature("f", {"ID": [fid]})
+        f.id = fid
+        cand, cv = IM.sym_feature("cand", {"ID": [fid]})
+        cand.id = fid
+        ctx.assume(cand.start.e != f.start.e)          # some compared column differs
+        cnt = IM.SymMap("cnt")
+        cr = IM.blank_creator(C._GFFDBCreator, ghostdb.GhostConn(), counters=cnt, merge_strategy="merge")
+        it.contracts[C._DBCreator._candidate_merges] = lambda interp, a, k: [cand]
+        ctx.stash.update(f=f, fid=fid, cnt=cnt)
+        return it.call(C._DBCreator._do_merge, [cr, f, "merge"], {})
+
+    def replay(m):
+        feats = [mkfeat("k", start=1), mkfeat("k", start=2), mkfeat("k", start=2, Name="second")]
+        db = gffutils.create_db(feats, ":memory:", merge_strategy="merge")
+        dup = sorted(tuple(r) for r in db.conn.execute("SELECT idspecid, newid FROM duplicates"))
+        ids = sorted(f.id for f in db.all_features())
+        return {"inputs": [str(f) for f in feats], "expected": [[("k", "k_1")], ["k", "k_1"]], "observed": [dup, ids], "violates": dup != [("k", "k_1")] or ids != ["k", "k_1"]}
+    for p in U.explore(run, it):
+        st = p.ctx.stash
+        ok = p.kind == "return" and isinstance(p.value, tuple) and p.value[0] is st["f"] and p.value[1] == "create_unique"
+        goal = z3.BoolVal(False)
+        if ok:
+            k, a = _auto(st["fid"], st["cnt"].arr0)
+            effs = IM.classify(p.ctx.effects)
+            ins = [e for e in effs if e.kind == "insert"]
+            if len(ins) == 1 and ins[0].table == "duplicates":
+                t, conflict, cols, vals = IM.insert_values(ins[0])
+                row = dict(zip(cols or Q.TABLE_COLS["duplicates"], vals))
+                goal = z3.And(_streq(st["f"].id, k), st["cnt"].arr == a, IM.veq(row["idspecid"], st["fid"]), IM.veq(row["newid"], k), z3.BoolVal(conflict is None))
+        U.prove("C05.do_merge.merge.no_candidate#p%d" % p.index,
+                "no candidate agrees on the compared columns ==> the newcomer becomes '<key>_<counters[key]+1>' and exactly the row (requested key, fresh key) is recorded in duplicates",
+                p.pc, goal, {}, replay=replay)
+
+
 def unit_init(U):
     """merge + start/end in force_merge_fields is rejected before anything else happens"""
     it = _interp()
@@ -380,7 +421,7 @@ def unit_bounded_explicit(U):
     U.bounded_result("C05.bounded.explicit_generated_key", "create_unique/merge keep all features even when an explicit id equals a generated key", "lines k, k_1, k x 2 strategies", 2, fails, exhaustive=True)
 
 
-UNITS = [("bounded.explicit", unit_bounded_explicit), ("do_merge", unit_do_merge), ("collision", unit_collision), ("init", unit_init), ("bounded.merge", unit_bounded_merge)]
+UNITS = [("bounded.explicit", unit_bounded_explicit), ("do_merge", unit_do_merge), ("merge_no_candidate", unit_merge_no_candidate), ("collision", unit_collision), ("init", unit_init), ("bounded.merge", unit_bounded_merge)]
 
 
 def replay_known(entry):
